@@ -40,7 +40,7 @@ pub fn check(case: &Case, prep: &Prepared, run: &Run) -> (Vec<Violation>, Facts)
 
     if run.result.foreign_thread {
         // code under test started threads of its own: E1 cannot own their schedule, nothing it observed is trusted
-        out.push(v("E1-inapplicable", "a seam was reached from a thread the simulator does not own".into()));
+        out.push(v("E1-inapplicable", "a seam was reached from a thread the simulator does not own, or thread-local state of the tree collided between simulated threads".into()));
         return (out, facts);
     }
 
